@@ -23,7 +23,7 @@ NextModel == /\ Len(parts) < NModel
              /\ (Len(parts') = NModel => Valid(parts'))
 \* after the model, items are appended one by one
 NextItem == /\ Len(parts) >= NModel /\ Len(parts) < NModel + (IF parts[2] THEN MaxLen ELSE 1)
-            /\ \E it \in ItemsOf(ModelAt(parts)) : (it.wrapped => ModelAt(parts).choices[it.c].tp = "Leaf") /\ parts' = Append(parts, it)
+            /\ \E it \in ItemsOf(ModelAt(parts)) : (it.wrapped => IsModel(ModelAt(parts).choices[it.c].tp)) /\ parts' = Append(parts, it)
 Next == NextModel \/ NextItem
 Spec == Init /\ [][Next]_parts
 
